@@ -26,6 +26,10 @@
     modelled ([replace_disk]) and compared with the code by the correspondence runs of the check,
     but not covered by the invariant theorem.
 
+    Under injected failures: [C12_failed_unchanged] — a snapshot / resize / set-checkpoint that does
+    not return success, whichever of its calls failed, leaves the memory as it was (the code since
+    /repo 0472ed5, 0c1a1af, a3198e0; refuted for the code before by [C12_failed_unchanged_refuted]).
+
     The oracle of the check ([Corr.c12_oracle_b]): its structural clause [wf_obs] — Chain() is a
     duplicate-free path, every member is listed with its record, its only child and its parent, has
     its image and a metadata file holding that record, the members are pairwise different inodes,
